@@ -424,6 +424,13 @@ def pairing(ctx, rule, version, templates):
                 ctx.ob(rule, 'v%s: text %r of a %s is also matched by %s, which comes later (longest-match tie goes to '
                              'the earlier alternative)' % (version, show(c), kind, a['node'].label()), True, where)
             else:
+                w_real, n_val, win = real_tie(kind_of_or, alts, want, t.rx, a['rx'])
+                if w_real is None:
+                    ctx.ob(rule, 'v%s: %r (a %s) is in the regular language of %s, but under pyparsing\'s commitment '
+                                 'semantics the alternative for %s wins (%d witnesses validated on the grammar model)'
+                           % (version, show(c), kind, a['node'].label(), kind, n_val), True, where)
+                    continue
+                c = w_real
                 ctx.violation(rule, '%s::hs_scalar_%s' % (FP, version.replace('.', '_')),
                               '%s before %s' % (a['node'].label(), own[0]['node'].label()),
                               'dump_scalar(<%s>) can be %r, which the earlier alternative %s also matches in full: the '
@@ -517,3 +524,31 @@ def reader_grid_rx(ctx, version):
 
 def spec_grid_rx():
     return L.rcat(S.zinc('structure', 'header'), S.zinc('structure', 'cols'), L.rstar(S.zinc('structure', 'row')))
+
+
+# ------------------------------------------------------------------ PEG re-validation of tie witnesses
+
+CANON = {S.SYM_S: 'N', S.SYM_G: 'ver:"3.0"\na\nN\n', S.SYM_ID: 'a'}
+
+
+def concretise(word):
+    return ''.join(CANON.get(c, chr(c) if c < L.SYM_BASE else '') for c in word)
+
+
+def real_tie(kind_of_or, alts, want, rx_a, rx_b, n=5):
+    """Among up to n shortest common words of the two languages, one that pyparsing really hands to an
+    alternative that does not build `want` (validated on the extracted grammar under PEG semantics).
+    Returns (word or None, number validated)."""
+    peg = G.Peg()
+    words = L.find_common_many(rx_a, rx_b, n)
+    nodes = [a['node'] for a in alts]
+    for w in words:
+        text = concretise(w)
+        idx, end = peg.winner(nodes, kind_of_or, text)
+        if idx is None:
+            continue
+        if end != len(text):
+            continue        # the text is not consumed as one scalar at all: not a mis-read of this kind
+        if want not in alts[idx]['kinds'] and not (want == 'Grid' and any(k.startswith('forward:hs_grid') for k in alts[idx]['kinds'])):
+            return w, len(words), alts[idx]
+    return None, len(words), None
